@@ -184,6 +184,8 @@ class Family(object):
     def run_slice(self, tier, seed, w, W):
         st = Stats(self.name)
         self.setup(tier)
+        self._sig_tried = {}
+        self._sig_final = {}
         if self.isolate is not None:
             self.isolate()
         off = seed % W
@@ -232,6 +234,14 @@ class Family(object):
                 self._window.clear()
         res = self._guarded(case)
         if res.violation is not None and self.isolate is not None:
+            raw_sig = res.violation['sig']
+            self._sig_tried[raw_sig] = self._sig_tried.get(raw_sig, 0) + 1
+            if self._sig_tried[raw_sig] > 3:
+                # enough replayable examples of this signature have been worked out already: count this one, reset
+                res.violation['sig'] = self._sig_final.get(raw_sig, raw_sig)
+                self.isolate()
+                self._window.clear()
+                return res
             self.isolate()
             res2 = self._guarded(case)
             if res2.violation is not None:
@@ -264,6 +274,7 @@ class Family(object):
                     res = r
                 else:
                     res.violation['sig'] = 'history-dependent-unreproduced:' + res.violation['sig']
+                self._sig_final[raw_sig] = res.violation['sig']
                 self.isolate()
                 self._window.clear()
                 return res
@@ -278,6 +289,8 @@ class Family(object):
         return res
 
     _window = None
+    _sig_tried = {}
+    _sig_final = {}
     ISOLATE_EVERY = 256
     HISTORY_WINDOW = 64
 
